@@ -203,6 +203,10 @@ def run(shard, ctx):
         for count in range(-10, 61):
             for u in (1, 2, 4, 8, 16, 32, 64, 128, 3, 6, 0, -4, 12, 4.0, 8.0, 0.5, 1.5, 2.5, 5, 7, 9, 10, 2 ** 40):
                 check_meter(ctx, count, u)
+        # counts no float can hold (2**1024 and beyond), with units of every kind
+        for count in (2 ** 1024, 2 ** 1024 + 1, 3 * 10 ** 400, 10 ** 400, 6 * 2 ** 1100, -(10 ** 400), 2 ** 2000 + 3):
+            for u in (4, 8, 3, 0, 16.0, 2 ** 40, 5):
+                check_meter(ctx, count, u)
         ctx.extra["max_line_events_in_a_terminating_meter_call"] = 0
         ctx.count("meter: largest number of line events a returning call needed", reach.max_steps_seen())
         ctx.sample({"is_compound((6,8))": M.is_compound((6, 8)), "valid_beat_duration(2**1023) line events": reach.max_steps_seen()})
